@@ -346,6 +346,18 @@ impl<'a> Outbound<'a> {
         None
     }
 
+    /// The packet that is partially on the wire (or awaiting its flush), if any.
+    pub(super) fn in_progress_step(&self) -> Option<OutboundStep> {
+        self.next_step().filter(|step| {
+            let state = match step {
+                OutboundStep::Control(step) => step.state,
+                OutboundStep::Release(step) => step.state,
+                OutboundStep::Retained(step) => step.state,
+            };
+            state.is_in_progress()
+        })
+    }
+
     pub(super) fn set_control_written(
         &mut self,
         action: ControlAction,
